@@ -2492,9 +2492,18 @@ void coefficient_divrem(const lp_polynomial_context_t* ctx, coefficient_t* D, co
       assert(0);
     }
   } else {
-    // Just use the regular methods
-    coefficient_rem(ctx, R, COEFF(C1, 0), C2);
-    coefficient_div(ctx, D, C1, C2);
+    // C2 is constant in the main variable of C1: divide coefficient-wise, and
+    // R = C1 - D*C2 (zero when the division is exact). Temporaries, since the
+    // outputs may alias the inputs.
+    coefficient_t D_tmp, R_tmp;
+    coefficient_construct(ctx, &D_tmp);
+    coefficient_construct_copy(ctx, &R_tmp, C1);
+    coefficient_div(ctx, &D_tmp, C1, C2);
+    coefficient_sub_mul(ctx, &R_tmp, &D_tmp, C2);
+    coefficient_swap(D, &D_tmp);
+    coefficient_swap(R, &R_tmp);
+    coefficient_destruct(&D_tmp);
+    coefficient_destruct(&R_tmp);
   }
 
   if (trace_is_enabled("coefficient")) {
